@@ -178,9 +178,9 @@ pub fn check_frame_paths(rep: &mut Report, input: &[u8], r: &mut Rng, budget: us
     }
     if prefix_of_valid && !matches!(a, One::NeedMore) {
         // a proper prefix may only ask for more — unless the prefix already shows the element is
-        // unacceptable whatever follows (oversize length, invalid id, unknown type)
+        // unacceptable whatever follows (oversize length, invalid id)
         let decided_early = match &a {
-            One::Err(e) => e == "PayloadTooBig" || e == "InvalidSessionId" || e == "UnknownFrame",
+            One::Err(e) => e == "PayloadTooBig" || e == "InvalidSessionId",
             _ => false,
         };
         if !decided_early {
@@ -190,7 +190,6 @@ pub fn check_frame_paths(rep: &mut Report, input: &[u8], r: &mut Rng, budget: us
     // reference: need-more must coincide with the reference's need-more
     match (ref_frame(input), &a) {
         (RefFrame::NeedMore, One::NeedMore) => {}
-        (RefFrame::NeedMore, One::Err(e)) if e == "UnknownFrame" => {} // decided on the type alone (pre-F4 trees)
         (RefFrame::NeedMore, other) => bad.push(format!("reference needs more bytes, decoder says {}", class_of(other))),
         (RefFrame::Known { .. } | RefFrame::Wt { .. }, One::NeedMore) => bad.push("complete frame reported as need-more".into()),
         _ => {}
